@@ -26,7 +26,7 @@ class P(flow.Plan):
 
     def model_runs(self, tier):
         if tier == "thorough":
-            root, cfg = model(["path", "binary", "custom", "path", "ufile"], 3)
+            root, cfg = model(["path", "binary", "path", "ufile"], 3)
         else:
             root, cfg = model(["path", "binary", "ufile"], 3)
         # the code before fix F23 (teardown left a user-opened file's buffer alone) must be told apart by the model
